@@ -5,7 +5,10 @@
    this model; the drivers never ask it about one).  [pack_rr_c] is packRR for records
    whose rdata is a sequence of steps: literal octets, a domain name (compressible or
    not), or an advance over octets that are NOT written (packDataA on a 16-byte non-IPv4
-   address).  A, AAAA, NS, CNAME, PTR, MX, NULL and an option-less OPT are such records.
+   address), plus the two one-octet look-aheads SPoke0 / SRoom1 below.  A, AAAA, NS, CNAME, PTR, MX,
+   DNAME, NULL, TXT, SOA, SRV, HINFO, CAA, DS, DNSKEY, RRSIG, NSEC, TLSA and OPT with opaque
+   options are such records (decomposed by the wire driver independently of the library's
+   packers: its own hex / base64 / type-bitmap encoders).
 
    Both are written as a PLAN — the writes, the final offset, the dictionary and the
    extent the bounds checks demand, computed without looking at the buffer — realised on
@@ -96,11 +99,16 @@ Definition q_len_c (s : name) : nat := name_len s + 4.
 
 (* ---- records ---- *)
 
-Inductive step := SBytes (bs : buf) | SName (s : name) (compressible : bool) | SSkip (n : nat).
+(* SPoke0: one zero octet written at the current offset WITHOUT advancing (packTxt on an empty
+   string list: `msg[offset] = 0; return offset`); SRoom1: one octet of room demanded, nothing
+   written, nothing advanced (the entry check `offset >= len(msg)` of packOctetString on an empty
+   string).  Both ask for one octet more than Len() counts: the reason the library sizes its
+   array Len()+1 and the sizing premise len_suffices_* is stated with a strict bound. *)
+Inductive step := SBytes (bs : buf) | SName (s : name) (compressible : bool) | SSkip (n : nat) | SPoke0 | SRoom1.
 Definition body := list step.
 
 Definition step_len (st : step) : nat :=
-  match st with SBytes bs => length bs | SName s _ => name_len s | SSkip n => n end.
+  match st with SBytes bs => length bs | SName s _ => name_len s | SSkip n => n | SPoke0 => 0 | SRoom1 => 0 end.
 
 Fixpoint plan_steps (ss : body) (off : nat) (cm : option dict) (compress : bool)
          (ws : list (nat * buf)) (need : nat) : option plan :=
@@ -108,6 +116,8 @@ Fixpoint plan_steps (ss : body) (off : nat) (cm : option dict) (compress : bool)
   | [] => Some (mk_plan ws off cm need)
   | SBytes bs :: r => plan_steps r (off + length bs) cm compress (ws ++ [(off, bs)]) (Nat.max need (off + length bs))
   | SSkip n :: r => plan_steps r (off + n) cm compress ws (Nat.max need (off + n))
+  | SPoke0 :: r => plan_steps r off cm compress (ws ++ [(off, [0%N])]) (Nat.max need (off + 1))
+  | SRoom1 :: r => plan_steps r off cm compress ws (Nat.max need (off + 1))
   | SName s cf :: r =>
       match plan_name s off cm (compress && cf) with
       | None => None
